@@ -747,6 +747,9 @@ func genBotWorker(c *Ctx) {
 				pre: n - 2, menu: "MTaAt", depth: 3 + extra, gameNo: 950 + len(scns)})
 			scns = append(scns, &botScn{name: fmt.Sprintf("edgetower%d-resume-%s", ti, colour), colour: colour, size: 8, script: script, alt: alt, hasAlt: hasAlt,
 				replay: n, menu: "MTaAt", depth: 2 + extra, gameNo: 950 + len(scns)})
+			// the bot itself is to play the seven-drop move
+			scns = append(scns, &botScn{name: fmt.Sprintf("edgetower%d-own-%s", ti, colour), colour: colour, size: 8, script: script, alt: alt, hasAlt: hasAlt,
+				pre: n - 1, menu: "MTaAt", depth: 2 + extra, gameNo: 950 + len(scns)})
 		}
 	}
 	scns = append(fin, scns...)
